@@ -766,7 +766,8 @@ func (ctx drawContext) drawBorderImage(box *bo.BoxFields) {
 			nRepeatsX, nRepeatsY int
 			extraDx, extraDy     fl
 		)
-		if intrinsicWidth == 0 || width == 0 || sliceWidth == 0 {
+		// a region of negative size (border-image-width larger than the area) is not drawn
+		if intrinsicWidth == 0 || width <= 0 || sliceWidth == 0 {
 			scaleX = 0
 		} else {
 			extraDx = 0
@@ -793,7 +794,7 @@ func (ctx drawContext) drawBorderImage(box *bo.BoxFields) {
 			}
 		}
 
-		if intrinsicHeight == 0 || height == 0 || sliceHeight == 0 {
+		if intrinsicHeight == 0 || height <= 0 || sliceHeight == 0 {
 			scaleY = 0
 		} else {
 			extraDy = 0
